@@ -69,6 +69,11 @@ func runRebCase(c rebCase) (closed int, sig, msg string) {
 		cs.AddNode(&cluster.Node{ID: fmt.Sprintf("n%d", i), Status: cluster.NodeStatus(o.Status), ProxyAddr: "p", AdminAddr: "a", Endpoints: eps})
 	}
 	conf := config.UpstreamConfig{Rebalance: config.RebalanceConfig{Threshold: c.Threshold, ShedRate: c.ShedRate, MinConns: c.MinConns}}
+	// a configuration the server refuses to start with cannot shed anything;
+	// everything it accepts is held to the property
+	if err := conf.Rebalance.Validate(); err != nil {
+		return 0, "config-rejected", err.Error()
+	}
 	srv := upstream.NewServer(upstream.NewLoadBalancedManager(cs, nil), nil, nil, cs, conf, log.NewNopLogger())
 	mux := yamux.DefaultConfig()
 	mux.EnableKeepAlive = false
@@ -158,14 +163,16 @@ func multisets(choices []otherNode, k int) [][]otherNode {
 func init() {
 	register("C19", func(args []string) int {
 		run := evid.NewRun("C19", "exploration")
-		thresholds := []float64{0.25, 0.5, 1, 2}
-		rates := []float64{0, 0.25, 0.5, 1}
+		// negative thresholds and rates outside [0,1] are configurations a user
+		// can write: either the server refuses them or it sheds within the rules
+		thresholds := []float64{-1, -0.5, 0.25, 0.5, 1, 2}
+		rates := []float64{-0.5, 0, 0.25, 0.5, 1, 2}
 		mins := []uint{0, 1, 3}
 		maxLocal, maxOthers, maxConns := 6, 2, 4
 		if run.Thorough() {
 			maxOthers = 3
 			maxLocal = 8
-			thresholds = []float64{0.125, 0.25, 0.5, 1, 2}
+			thresholds = []float64{-1, -0.5, -0.125, 0.125, 0.25, 0.5, 1, 2}
 		}
 		var choices []otherNode
 		for _, st := range []string{"active", "unreachable", "left"} {
@@ -180,7 +187,7 @@ func init() {
 		type job struct{ c rebCase }
 		jobs := make(chan rebCase, 256)
 		var mu sync.Mutex
-		evals, shed := 0, 0
+		evals, shed, rejected := 0, 0, 0
 		distinct := map[string]bool{}
 		var wg sync.WaitGroup
 		for w := 0; w < 16; w++ {
@@ -199,6 +206,12 @@ func init() {
 						}
 					}
 					mu.Unlock()
+					if sig == "config-rejected" {
+						mu.Lock()
+						rejected++
+						mu.Unlock()
+						continue
+					}
 					if sig != "" {
 						run.Violation("C19", sig, msg+fmt.Sprintf(" (case %+v)", c), map[string]any{"engine": "E3-C19", "case": c})
 					}
@@ -219,6 +232,7 @@ func init() {
 		close(jobs)
 		wg.Wait()
 		run.Set("evaluations", evals)
+		run.Set("configurations_rejected_by_validate", rejected)
 		run.Set("distinct_nontrivial", len(distinct))
 		run.Set("rule", "full cross product threshold x shed rate x min conns x local connections 0..N x every multiset of up to K other nodes (status x connections); non-trivial = distinct configurations in which Rebalance() closed at least one session")
 		run.Set("exhaustive", true)
